@@ -495,7 +495,8 @@ Inductive op :=
 | OAdvance (dt : Z) | ONext
 | OStats (up comp lft : Z)
 | OStart (skip_tracker : bool)   (* Download::start: enable[_dont_reset_stats]; send_start_event *)
-| OStop (skip_tracker : bool).   (* Download::stop: [send_stop_event]; disable *)
+| OStop (skip_tracker : bool)    (* Download::stop: [send_stop_event]; disable *)
+| OInsert (g : nat).             (* TrackerList::insert of a new tracker in group g (add_extra_tracker) *)
 
 (* Scheduler::perform(now) for the single controller task *)
 Definition perform (s : state) : state :=
@@ -503,6 +504,14 @@ Definition perform (s : state) : state :=
   | Some t => if t <=? now s then do_timeout s else s
   | None => s
   end.
+
+(* TrackerList::insert: place at end_group(g), then m_slot_tracker_enabled -> receive_tracker_enabled.
+   The new tracker's identity is the number of trackers inserted so far. *)
+Definition insert_op (g : nat) (s : state) : state :=
+  let s := set_trs s (insert_tracker (mkT (length (trs s)) g true false EvNone 0 0 0 0 min_normal min_min) (trs s)) in
+  if negb (has_usable (trs s)) then s
+  else if f_active (fl s) && (match tmo s with None => true | Some _ => false end) && negb (has_active (trs s))
+  then update_timeout 0 s else s.
 
 Definition step (s : state) (o : op) : state :=
   match o with
@@ -530,6 +539,7 @@ Definition step (s : state) (o : op) : state :=
   | OStats up comp lft => mkS (trs s) (fl s) (tmo s) (now s) up comp lft (log s)
   | OStart skip => if skip then ctl_enable false s else send_start_event (ctl_enable true s)
   | OStop skip => ctl_disable (if skip then s else send_stop_event s)
+  | OInsert g => insert_op g s
   end.
 
 Definition new_tracker (id g : nat) : tracker :=
